@@ -107,28 +107,38 @@ Proof.
   - intros i. rewrite FD. apply gsame_refl.
 Qed.
 
+Definition JM (b : bool) (s : core) (m : mon) : Prop :=
+  Agree s m /\ SI s /\ FdI s (-1) /\ FdX s /\ a_main m = b /\ Goodm m.
+
+Lemma J_JM : forall b s, J b s <-> JM b s (mst s).
+Proof.
+  intros b s. split.
+  - intros [A B C D E F]. unfold JM. split; [exact A|split; [exact B|split; [exact C|split; [exact D|split; [exact E|exact F]]]]].
+  - intros (A & B & C & D & E & F). constructor; assumption.
+Qed.
+
 (* the general update lemma: every group is either kept or re-proved *)
-Lemma J_upd : forall b s s', J b s ->
-  a_main (mst s') = a_main (mst s) -> Goodm (mst s') ->
-  (((forall i, inr16 i -> fkeep (fdt s' i) (fdt s i)) /\ a_fd (mst s') = a_fd (mst s) /\
-    a_fh (mst s') = a_fh (mst s) /\ a_ck (mst s') = a_ck (mst s)) \/ AgFd s' (mst s')) ->
-  ((heap s' = heap s /\ a_tm (mst s') = a_tm (mst s) /\ a_exp (mst s') = a_exp (mst s)) \/ AgTm s' (mst s')) ->
-  ((tasks s' = tasks s /\ cur s' = cur s /\ a_tk (mst s') = a_tk (mst s)) \/ AgTk s' (mst s')) ->
+Lemma JM_upd : forall b s s' m', J b s ->
+  a_main m' = a_main (mst s) -> Goodm m' ->
+  (((forall i, inr16 i -> fkeep (fdt s' i) (fdt s i)) /\ a_fd m' = a_fd (mst s) /\
+    a_fh m' = a_fh (mst s) /\ a_ck m' = a_ck (mst s)) \/ AgFd s' m') ->
+  ((heap s' = heap s /\ a_tm m' = a_tm (mst s) /\ a_exp m' = a_exp (mst s)) \/ AgTm s' m') ->
+  ((tasks s' = tasks s /\ cur s' = cur s /\ a_tk m' = a_tk (mst s)) \/ AgTk s' m') ->
   ((ev_reg s' = ev_reg s /\ ev_pending s' = ev_pending s /\ ev_batch s' = ev_batch s /\
-    a_ev (mst s') = a_ev (mst s) /\ a_evp (mst s') = a_evp (mst s)) \/ AgEv s' (mst s')) ->
-  ((rw_reg s' = rw_reg s /\ a_rw (mst s') = a_rw (mst s)) \/ AgRw s' (mst s')) ->
-  ((quit s' = quit s /\ a_quit (mst s') = a_quit (mst s)) \/ a_quit (mst s') = quit s') ->
-  ((clock (kern s') = clock (kern s) /\ a_clk (mst s') = a_clk (mst s)) \/ a_clk (mst s') = clock (kern s')) ->
+    a_ev m' = a_ev (mst s) /\ a_evp m' = a_evp (mst s)) \/ AgEv s' m') ->
+  ((rw_reg s' = rw_reg s /\ a_rw m' = a_rw (mst s)) \/ AgRw s' m') ->
+  ((quit s' = quit s /\ a_quit m' = a_quit (mst s)) \/ a_quit m' = quit s') ->
+  ((clock (kern s') = clock (kern s) /\ a_clk m' = a_clk (mst s)) \/ a_clk m' = clock (kern s')) ->
   (heap s' = heap s \/ SiTm s') ->
   ((time s' = time s /\ time_valid s' = time_valid s /\ clock (kern s') = clock (kern s)) \/ SiTime s') ->
   ((tasks s' = tasks s /\ cur s' = cur s) \/ SiTk s') ->
   ((ev_reg s' = ev_reg s /\ ev_pending s' = ev_pending s /\ ev_batch s' = ev_batch s) \/ SiEv s') ->
-  FdI s' (-1) -> FdX s' -> J b s'.
+  FdI s' (-1) -> FdX s' -> JM b s' m'.
 Proof.
-  intros b s s' [AG SIv FD FX MN GD] M G H1 H2 H3 H4 H5 H6 H7 K1 K2 K3 K4 FD' FX'.
+  intros b s s' m' [AG SIv FD FX MN GD] M G H1 H2 H3 H4 H5 H6 H7 K1 K2 K3 K4 FD' FX'.
   apply Agree_groups in AG. destruct AG as (G1 & G2 & G3 & G4 & G5 & G6 & G7).
   apply SI_groups in SIv. destruct SIv as (S1 & S2 & S3 & S4).
-  constructor; try assumption; [| |congruence].
+  unfold JM. split; [|split; [|split; [assumption|split; [assumption|split; [congruence|assumption]]]]].
   - apply Agree_groups. split; [|split; [|split; [|split; [|split; [|split]]]]].
     + destruct H1 as [(F & E1 & E2 & E3)|H1]; [|assumption].
       intros i I. rewrite E1, E2, E3. destruct (F i I) as [(_ & Q1 & Q2 & Q3 & Q4) Q5].
@@ -148,6 +158,27 @@ Proof.
     + destruct K2 as [(E1 & E2 & E3)|K2]; [|assumption]. unfold SiTime. rewrite E1, E2, E3. assumption.
     + destruct K3 as [(E1 & E2)|K3]; [|apply K3]. unfold SiTk, curl. rewrite E1, E2. apply S3.
     + destruct K4 as [(E1 & E2 & E3)|K4]; [|apply K4]. unfold SiEv. rewrite E1, E2, E3. apply S4.
+Qed.
+
+
+Lemma J_upd : forall b s s', J b s ->
+  a_main (mst s') = a_main (mst s) -> Goodm (mst s') ->
+  (((forall i, inr16 i -> fkeep (fdt s' i) (fdt s i)) /\ a_fd (mst s') = a_fd (mst s) /\
+    a_fh (mst s') = a_fh (mst s) /\ a_ck (mst s') = a_ck (mst s)) \/ AgFd s' (mst s')) ->
+  ((heap s' = heap s /\ a_tm (mst s') = a_tm (mst s) /\ a_exp (mst s') = a_exp (mst s)) \/ AgTm s' (mst s')) ->
+  ((tasks s' = tasks s /\ cur s' = cur s /\ a_tk (mst s') = a_tk (mst s)) \/ AgTk s' (mst s')) ->
+  ((ev_reg s' = ev_reg s /\ ev_pending s' = ev_pending s /\ ev_batch s' = ev_batch s /\
+    a_ev (mst s') = a_ev (mst s) /\ a_evp (mst s') = a_evp (mst s)) \/ AgEv s' (mst s')) ->
+  ((rw_reg s' = rw_reg s /\ a_rw (mst s') = a_rw (mst s)) \/ AgRw s' (mst s')) ->
+  ((quit s' = quit s /\ a_quit (mst s') = a_quit (mst s)) \/ a_quit (mst s') = quit s') ->
+  ((clock (kern s') = clock (kern s) /\ a_clk (mst s') = a_clk (mst s)) \/ a_clk (mst s') = clock (kern s')) ->
+  (heap s' = heap s \/ SiTm s') ->
+  ((time s' = time s /\ time_valid s' = time_valid s /\ clock (kern s') = clock (kern s)) \/ SiTime s') ->
+  ((tasks s' = tasks s /\ cur s' = cur s) \/ SiTk s') ->
+  ((ev_reg s' = ev_reg s /\ ev_pending s' = ev_pending s /\ ev_batch s' = ev_batch s) \/ SiEv s') ->
+  FdI s' (-1) -> FdX s' -> J b s'.
+Proof.
+  intros. apply J_JM. apply (JM_upd b s s' (mst s')); assumption.
 Qed.
 
 (* ---------- generalities about actions ---------- *)
@@ -1259,4 +1290,106 @@ Proof.
     + rewrite T3 in RG by (unfold key, RAW_KEY; lia). apply X1; assumption.
   - intros k Kr. rewrite FD4. destruct (T2 k) as (_ & H1' & H2' & H3' & _). unfold hand_ok. rewrite H1', H2', H3'. apply X2. assumption.
   - intros k Kr. rewrite FD4. destruct (T2 k) as (_ & H1' & H2' & H3' & _). unfold hand_ok. rewrite H1', H2', H3'. apply X3. assumption.
+Qed.
+
+Lemma JM_emit : forall b s m e, JM b s m -> JM b (emit s e) m.
+Proof.
+  intros b s m e (A & B & C & D & E & F). unfold JM.
+  split; [destruct A; constructor; assumption|]. split; [destruct B; constructor; assumption|].
+  split; [apply FdI_emit; assumption|]. split; [apply FdX_emit; assumption|]. auto.
+Qed.
+
+Lemma J_emit_step : forall b s1 e, JM b s1 (mon_step (mst s1) e) -> J b (emit s1 e).
+Proof. intros b s1 e H. apply J_JM. rewrite mst_emit. apply JM_emit. assumption. Qed.
+
+Lemma JM_raw : forall b s e s1 m', J b s -> RawStep (emit s e) s1 -> FdI s1 (-1) -> FdX s1 ->
+  a_main m' = a_main (mst s) -> Goodm m' ->
+  (a_fd m' = a_fd (mst s) /\ a_fh m' = a_fh (mst s) /\ a_ck m' = a_ck (mst s) /\ a_tm m' = a_tm (mst s) /\
+   a_exp m' = a_exp (mst s) /\ a_tk m' = a_tk (mst s) /\ a_quit m' = a_quit (mst s) /\ a_clk m' = a_clk (mst s)) ->
+  ((ev_reg s1 = ev_reg s /\ ev_pending s1 = ev_pending s /\ ev_batch s1 = ev_batch s /\
+    a_ev m' = a_ev (mst s) /\ a_evp m' = a_evp (mst s)) \/ AgEv s1 m') ->
+  ((rw_reg s1 = rw_reg s /\ a_rw m' = a_rw (mst s)) \/ AgRw s1 m') ->
+  ((ev_reg s1 = ev_reg s /\ ev_pending s1 = ev_pending s /\ ev_batch s1 = ev_batch s) \/ SiEv s1) ->
+  JM b s1 m' /\ Fr s s1.
+Proof.
+  intros b s e s1 m' Jh [A1 A2 A3 A4 A5 A6 A7 A8 A9 A10 A11 A12] FI FX MN G (V1 & V2 & V3 & V4 & V5 & V6 & V7 & V8) EV RW SE.
+  split; [|split; [exact A12|intros E; rewrite A5; exact E]].
+  apply (JM_upd b s s1 m' Jh); try assumption.
+  - left. auto.
+  - left. auto.
+  - left. auto.
+  - left. auto.
+  - left. auto.
+  - left. exact A1.
+  - left. auto.
+  - left. auto.
+Qed.
+
+Lemma FdX_join : forall s, FdXa s -> (rw_reg s 16 = true -> use_raw s = true /\ ev_count s <> 0) ->
+  ev_count s = cnt (ev_reg s) -> FdX s.
+Proof. intros s A B C. apply FdX_split. auto. Qed.
+
+Lemma act_ARwReg : forall b s j, J b s -> inr16 j -> Post b s (do_action s (ARwReg j)).
+Proof.
+  intros b s j Jh I. unfold do_action. cbv zeta.
+  destruct (rw_reg s j) eqn:RG; [apply Post_same; assumption|].
+  set (ex := emit s (TAct (ARwReg j))).
+  destruct (proj1 (FdX_split _) (j_fx _ _ Jh)) as (XA & XK & XC).
+  assert (XAe : FdXa ex) by exact XA.
+  pose proof (raw_register_spec ex j (FdI_emit _ _ _ (j_fd _ _ Jh)) XAe ltac:(unfold inr16 in I; lia) RG) as Q.
+  assert (GX : Goodm (mst ex)) by (unfold ex; rewrite mst_emit; apply good_TAct; apply (j_good _ _ Jh)).
+  unfold RawRegPost in Q.
+  destruct (raw_register ex j) as [r failed]. cbn [fst snd] in Q.
+  destruct r as [s1|s1]; cbn [FdRes Post bind] in *; [|eapply HaltOf_good; eassumption].
+  destruct Q as (RS & ES & FI & XA1 & RW1).
+  set (rc := if failed then -1 else 0).
+  assert (M1 : mst s1 = mst s) by (rewrite (rs_mst _ _ RS); apply mst_act).
+  set (m' := mon_step (mst s1) (TRes 2 j rc)).
+  assert (MV : m' = if failed then mst s else m_rws (mst s) (upd (a_rw (mst s)) j true) (a_rwp (mst s))).
+  { unfold m', rc. rewrite M1. destruct failed; reflexivity. }
+  destruct ES as [E1 E2 E3 E4 E5].
+  assert (G : JM b s1 m' /\ Fr s s1).
+  { apply (JM_raw b s (TAct (ARwReg j)) s1 m' Jh RS FI).
+    - apply FdX_join; [assumption| |].
+      + rewrite RW1, E5, E3. intros H. apply XK.
+        destruct failed; [exact H|]. unfold upd in H. destruct (Z.eqb_spec 16 j); [unfold inr16 in I; lia|exact H].
+      + rewrite E3, E4. exact XC.
+    - rewrite MV. destruct failed; reflexivity.
+    - unfold m'. rewrite M1. apply good_TRes. apply (j_good _ _ Jh).
+    - rewrite MV. destruct failed; repeat split.
+    - left. rewrite MV. split; [exact E4|split; [exact E1|split; [exact E2|destruct failed; split; reflexivity]]].
+    - right. rewrite MV. intros y Y. rewrite RW1. pose proof (J_AgRw _ _ Jh y Y) as A.
+      destruct failed; [exact A|]. cbn [a_rw m_rws]. unfold upd. destruct (Z.eqb_spec y j); [reflexivity|exact A].
+    - left. auto. }
+  destruct G as [G1 G2]. split; [apply J_emit_step; exact G1|].
+  eapply Fr_trans; [exact G2|apply Fr_plain; reflexivity].
+Qed.
+
+Lemma act_ARwUnreg : forall b s j, J b s -> inr16 j -> Post b s (do_action s (ARwUnreg j)).
+Proof.
+  intros b s j Jh I. unfold do_action. cbv zeta.
+  destruct (rw_reg s j) eqn:RG; [|apply Post_same; assumption].
+  set (ex := emit s (TAct (ARwUnreg j))).
+  destruct (proj1 (FdX_split _) (j_fx _ _ Jh)) as (XA & XK & XC).
+  assert (XAe : FdXa ex) by exact XA.
+  pose proof (raw_unregister_spec ex j (FdI_emit _ _ _ (j_fd _ _ Jh)) XAe ltac:(unfold inr16 in I; lia)) as Q.
+  assert (GX : Goodm (mst ex)) by (unfold ex; rewrite mst_emit; apply good_TAct; apply (j_good _ _ Jh)).
+  destruct (raw_unregister ex j) as [s1|s1]; cbn [FdRes Post] in *; [|eapply HaltOf_good; eassumption].
+  destruct Q as (RS & ES & FI & XA1 & RW1).
+  assert (M1 : mst s1 = mon_action (mst s) (ARwUnreg j)) by (rewrite (rs_mst _ _ RS); apply mst_act).
+  destruct ES as [E1 E2 E3 E4 E5].
+  assert (G : JM b s1 (mst s1) /\ Fr s s1).
+  { apply (JM_raw b s (TAct (ARwUnreg j)) s1 (mst s1) Jh RS FI).
+    - apply FdX_join; [assumption| |].
+      + rewrite RW1, E5, E3. intros H. apply XK.
+        unfold upd in H. destruct (Z.eqb_spec 16 j); [discriminate|exact H].
+      + rewrite E3, E4. exact XC.
+    - rewrite M1. reflexivity.
+    - rewrite M1. apply good_action. apply (j_good _ _ Jh).
+    - rewrite M1. repeat split.
+    - left. rewrite M1. split; [exact E4|split; [exact E1|split; [exact E2|split; reflexivity]]].
+    - right. rewrite M1. intros y Y. rewrite RW1. pose proof (J_AgRw _ _ Jh y Y) as A.
+      cbn [mon_action a_rw m_rws]. unfold upd. destruct (Z.eqb_spec y j); [reflexivity|exact A].
+    - left. auto. }
+  destruct G as [G1 G2]. split; [apply J_JM; exact G1|exact G2].
 Qed.
